@@ -170,3 +170,130 @@ def h_close_join_twin(ev: List[int]) -> bool:
         return _scenario(KINDS[PART % 4], 1 + (PART // 4) % 2, ev, True)
     except Prune:
         return True
+
+
+# ---------------------------------------------------------------------------
+# C08, parent side: terminate()
+
+def _terminate(kind, nproc, ev, want):
+    w = W.World()
+    p = w.make_pool(nproc, lost_worker_timeout=LWT, keep_finalizer=True)
+    try:
+        return _terminate_body(w, p, kind, nproc, ev, want)
+    finally:
+        p._outqueue._reader.idle_hook = None
+        w.join_hook = None
+        p._terminate.cancel()
+
+
+def _terminate_body(w, p, kind, nproc, ev, want):
+    nd = ND(ev)
+    obs = []
+    if kind == 'apply':
+        for t in ('a0', 'a1', 'a2'):
+            obs.append(W.Observer(p.apply_async(W.val, (t,)), 'apply'))
+    else:
+        items = ['m0', 'm1', 'm2']
+        if kind == 'map':
+            h = p.map_async(W.val, items, chunksize=1)
+            W.int_timeout(h)
+        elif kind == 'imap':
+            h = p.imap(W.val, items)
+        else:
+            h = p.imap_unordered(W.val, items)
+        obs.append(W.Observer(h, kind))
+        w.feed()
+    for _ in range(K):
+        e = nd.draw(0, 2)
+        if e < 2:
+            if e >= len(p._pool):
+                raise Prune()
+            x = p._pool[e]
+            if x.state == 'idle':
+                if not p._inqueue.q:
+                    raise Prune()
+                w.w_take(x)
+            elif x.state == 'busy':
+                w.w_done(x)
+            else:
+                raise Prune()
+        else:
+            w.rh()
+    before = []
+    for o in obs:
+        o.observe()
+        before.append(list(o.outcomes))
+    busy = [x for x in p._pool if x.state == 'busy']
+    polls = [0]
+
+    def idle(timeout):
+        polls[0] += 1
+        if polls[0] > 40:
+            raise Hang('result handler still polling after 40 s')
+        for x in w.procs:
+            if x.exitcode is None and x.got_term and x.obeys_term:
+                x.die(-15)       # a worker honours TERM also in the middle of a task (C08 worker side, harness/c03.py)
+        w.now = w.now + 1
+    p._outqueue._reader.idle_hook = idle
+
+    def on_join(proc):
+        # a worker that was told to terminate exits (worker side of C08: harness/c03.py)
+        if proc.got_term and proc.obeys_term:
+            proc.die(-15)
+        else:
+            raise Hang('join() on a worker that was never told to terminate')
+    w.join_hook = on_join
+    try:
+        try:
+            p.terminate()
+        except Hang as exc:
+            from harness.hbase import trace
+            trace('hang:', exc)
+            return fail('C08:terminate-does-not-return:' + kind)
+        if want and busy:
+            return False
+        if any(x.exitcode is None for x in w.procs):
+            return fail('C08:worker-alive-after-terminate')
+        nsig = len(w.signals)
+        for o, b in zip(obs, before):
+            if o.kind in ('apply', 'map') and b:
+                if (o.h._success, o.h._value) != b[0]:
+                    return fail('C08:result-delivered-before-terminate-changed')
+        try:
+            p.terminate()           # twice is harmless
+            p._terminate()          # and so is the finalizer (garbage collection)
+        except Hang:
+            return fail('C08:second-terminate-hangs')
+        except Exception as exc:
+            return fail('C08:second-terminate-raises:' + type(exc).__name__)
+        if len(w.signals) != nsig:
+            return fail('C08:second-terminate-signals-again')
+        if not (p._inqueue.closed and p._outqueue.closed):
+            return fail('C08:queues-not-closed')
+        return True
+    finally:
+        p._outqueue._reader.idle_hook = None
+        w.join_hook = None
+        p._terminate.cancel()
+
+
+def h_terminate(ev: List[int]) -> bool:
+    """
+    pre: len(ev) == K
+    post: _
+    """
+    try:
+        return _terminate(KINDS[PART % 4], 1 + (PART // 4) % 2, ev, False)
+    except Prune:
+        return True
+
+
+def h_terminate_twin(ev: List[int]) -> bool:
+    """
+    pre: len(ev) == K
+    post: _
+    """
+    try:
+        return _terminate(KINDS[PART % 4], 1 + (PART // 4) % 2, ev, True)
+    except Prune:
+        return True
